@@ -407,6 +407,37 @@ def cdend_rule(rep):
     rep.floor("C02.c", n, 72)
 
 
+NAME_SCANNERS = ("XMLReader::getName", "XMLReader::getNCName", "XMLReader::getQName", "XMLReader::getNextCharIfNot")
+
+
+def name_surrogate_rule(rep):
+    rep.rule("C02.a/names", "supplementary name characters are exactly [#x10000-#xEFFFF] (productions [4],[4a]): in the name scanners "
+             "of XMLReader (getName, getNCName, and what they inline) every literal of the surrogate range that takes part in a "
+             "comparison is one of D800, DB7F (last lead surrogate of U+EFFFF), DC00, DFFF, and the lead-surrogate upper bound DB7F "
+             "is present wherever a lead surrogate is tested — DBFF there would take U+F0000..U+10FFFF, which are characters but "
+             "not name characters, into names")
+    g = core.run_xa([os.path.join(core.REPO, "src/xercesc/internal/XMLReader.cpp")], st=r"^XMLReader::(getName|getNCName)$", flat=False)
+    n = 0
+    for q in ("XMLReader::getName", "XMLReader::getNCName"):
+        for st in g.sts.get(q, []):
+            lits = {}
+            for x in core.sx_walk(st["body"]):
+                if isinstance(x, list) and len(x) == 4 and x[0] == "b" and x[1] in ("<", "<=", ">", ">=", "==", "!="):
+                    for side in (x[2], x[3]):
+                        if isinstance(side, list) and side and side[0] == "i" and 0xD800 <= side[1] <= 0xDFFF:
+                            lits[side[1]] = lits.get(side[1], 0) + 1
+            if not lits:
+                raise AnalysisBroken("%s no longer tests surrogates" % q)
+            n += 1
+            bad = sorted(v for v in lits if v not in (0xD800, 0xDB7F, 0xDC00, 0xDFFF))
+            ok = not bad and lits.get(0xDB7F, 0) >= 1 and lits.get(0xDB7F, 0) == lits.get(0xD800, 0)
+            rep.ob("C02.a/names", q, ok, "surrogate literals %s" % {hex(k): v for k, v in sorted(lits.items())} if ok else
+                   "%s compares against %s in a name scanner (expected only D800, DB7F, DC00, DFFF with every lead test bounded by "
+                   "DB7F): characters above U+EFFFF would be taken into names" % (q, {hex(k): v for k, v in sorted(lits.items())}),
+                   "src/xercesc/internal/XMLReader.cpp:%s" % st.get("line", 0))
+    rep.floor("C02.a/names", n, 2)
+
+
 def run(rep):
     tus = [os.path.join(core.REPO, t) for t in TUS]
     diag_tus = diag.tus_for("C02")
@@ -420,6 +451,7 @@ def run(rep):
     table_rule(rep, f)
     accessor_rule(rep, f)
     cdend_rule(rep)
+    name_surrogate_rule(rep)
     cls_of, items = severity_rule(rep, f)
     messages_rule(rep, f, cls_of, items)
     diag.run(rep, f, "C02")
